@@ -210,6 +210,9 @@ structure Cfg where
   /-- variant switch `fix: duration value`: `_exact_product` (the float amount's printed decimal times the unit length,
   rounded once) instead of the float product `num * unit_value_map[source_unit]` -/
   fixValue : Bool := false
+  /-- variant switch `fix: duration unit codes, exact multiple` (only read when `fixUnit`): inside `_duration_timex` the
+  amount is multiplied by the code's numeric prefix with `_exact_product` instead of the float product `num * k` -/
+  fixUnitExact : Bool := false
 
 def lookup {β : Type} (m : List (Str × β)) (k : Str) : Option β := (m.find? fun p => p.1 == k).map (·.2)
 
@@ -220,8 +223,8 @@ def rowsOf (culture : Str) : List (Str × Str × Nat) :=
 /-- `extra` = the rows of the configuration that are not in the regenerated table (unit codes `10Y`, `2W`, `WE`, `WD`,
 `3MON`, `6MON`; `none` = the spelling has no entry in `unit_value_map`) -/
 def cfgOf (culture : Str) (extra : List (Str × Str × Option Nat)) (dn : List (Str × Dbl))
-    (fixUnit : Bool := false) (fixValue : Bool := false) : Cfg :=
-  { fixUnit := fixUnit, fixValue := fixValue,
+    (fixUnit : Bool := false) (fixValue : Bool := false) (fixUnitExact : Bool := false) : Cfg :=
+  { fixUnit := fixUnit, fixValue := fixValue, fixUnitExact := fixUnitExact,
     unitMap := (rowsOf culture).map (fun r => (r.1, r.2.1)) ++ extra.map (fun r => (r.1, r.2.1)),
     unitValueMap := (rowsOf culture).map (fun r => (r.1, r.2.2)) ++ extra.filterMap (fun r => r.2.2.map fun v => (r.1, v)),
     doubleNumbers := dn }
@@ -262,14 +265,6 @@ def splitCode (unit : Str) : Option (Nat × Str) :=
 def timexOld (n : Num) (c : Nat) (rest : Str) : Str :=
   [80] ++ (if isLessThanDay (c :: rest) then [84] else []) ++ numStr n ++ [c]
 
-/-- `_duration_timex(num, unit)` (after the fix): `none` = the multiplication overflowed (not modelled) -/
-def timexFixed (n : Num) (unit : Str) : Option Str :=
-  let render (n : Num) (u : Str) : Str :=
-    [80] ++ (if isLessThanDay u then [84] else []) ++ numStr n ++ (if u = sWE ∨ u = sWD then u else u.take 1)
-  match splitCode unit with
-  | some (k, u) => (mulNum n k).map fun n' => render n' u
-  | none => some (render n unit)
-
 /-- the decimal `repr(x)` denotes, as a rational (`Fraction(repr(num))`) -/
 def reprQ (x : Dbl) : Nat × Nat :=
   let c := (shortest x.num x.den 17 1).getD (roundDec x.num x.den 17)
@@ -282,8 +277,18 @@ def mulNumFixed (n : Num) (k : Nat) : Option Num :=
   | .int v => some (.int (v * k))
   | .flt x => (Dbl.ofQ x.neg ((reprQ x).1 * k) (reprQ x).2).map floatOrInt
 
+/-- `_duration_timex(num, unit)` (after the fix): `none` = the multiplication overflowed (not modelled). `exact = false` is
+the first version of the helper (`float_or_int(num * k)`, a float product: `0.14 decades` → `P1.4000000000000001Y`),
+`exact = true` the follow-up (`float_or_int(_exact_product(num, k))`). -/
+def timexFixed (exact : Bool) (n : Num) (unit : Str) : Option Str :=
+  let render (n : Num) (u : Str) : Str :=
+    [80] ++ (if isLessThanDay u then [84] else []) ++ numStr n ++ (if u = sWE ∨ u = sWD then u else u.take 1)
+  match splitCode unit with
+  | some (k, u) => (if exact then mulNumFixed n k else mulNum n k).map fun n' => render n' u
+  | none => some (render n unit)
+
 def timexOf (cfg : Cfg) (n : Num) (c : Nat) (rest : Str) : Option Str :=
-  if cfg.fixUnit then timexFixed n (c :: rest) else some (timexOld n c rest)
+  if cfg.fixUnit then timexFixed cfg.fixUnitExact n (c :: rest) else some (timexOld n c rest)
 
 def valueOf (cfg : Cfg) (n : Num) (secs : Nat) : Option Num :=
   if cfg.fixValue then mulNumFixed n secs else mulNum n secs
